@@ -1,39 +1,107 @@
 /-
 C09 — Month shapes describe exactly the days that exist in the month.
+
+A month's day list is `[nth_day 1, …, nth_day len]`; every other accessor is shown to
+describe that same list, and the list is shown to be exactly the days of the dates of the
+calendar that fall in the month (existence = `at_jdn` labelling, C02/C03).
 -/
-import JulianVerif.Lemmas.Proleptic
+import JulianVerif.Lemmas.ShapedInst
+import JulianVerif.Lemmas.Order
+set_option linter.unusedSimpArgs false
 namespace JV.C09
 open JV Spec
 
-/-- proleptic calendars: every month is Normal with the table length; membership, the
-two-way ordinal mapping, first/last day, gap and kind are those of the set 1..=len -/
-theorem shape_proleptic (ρ : Rule) (y : Int) (m : Month) :
-    ∃ s, (ruleCal ρ).monthIShape y m = some s
-      ∧ s.len = monthLen (leap ρ y) m ∧ s.firstDay = 1 ∧ s.lastDay = monthLen (leap ρ y) m
-      ∧ s.gap = none ∧ s.kind = .normal
-      ∧ (∀ d, s.contains d = true ↔ (1 ≤ d ∧ d ≤ monthLen (leap ρ y) m))
-      ∧ (∀ d, s.dayOrdinal d = if 1 ≤ d ∧ d ≤ monthLen (leap ρ y) m then some d else none)
-      ∧ (∀ n, s.nthDay n = if 1 ≤ n ∧ n ≤ monthLen (leap ρ y) m then some n else none) := by
-  refine ⟨_, ruleCal_whole ρ y m, rfl, rfl, rfl, rfl, rfl, ?_, ?_, ?_⟩
-  · intro d; simp [IShape.contains]
-  · intro d
-    simp only [IShape.dayOrdinal, IShape.dayOrdinalErr]
-    by_cases h : 1 ≤ d ∧ d ≤ monthLen (leap ρ y) m
-    · simp [h]
-    · have : (decide (1 ≤ d) && decide (d ≤ monthLen (leap ρ y) m)) = false := by
-        simp only [Bool.and_eq_false_iff, decide_eq_false_iff_not]; omega
-      simp [h, this]
-  · intro n
-    simp only [IShape.nthDay]
-    by_cases h : 1 ≤ n ∧ n ≤ monthLen (leap ρ y) m
-    · simp [h]
-    · have : (decide (1 ≤ n) && decide (n ≤ monthLen (leap ρ y) m)) = false := by
-        simp only [Bool.and_eq_false_iff, decide_eq_false_iff_not]; omega
-      simp [h, this]
+/-- **the shape is absent exactly when no date of the calendar falls in that month** -/
+theorem shape_none_iff (c : Calendar) (hc : WF c) (y : Int) (m : Month) :
+    c.monthIShape y m = none ↔ ¬ ∃ j d, c.atJdn? j = some d ∧ d.year = y ∧ d.month = m := by
+  obtain ⟨S⟩ := hc.shaped
+  exact S.month_none_iff y m
 
-/-- the general shape algebra: for any valid shape, `nth_day` answers exactly on 1..=len -/
-theorem nthDay_domain (s : IShape) (hv : s.Valid) (n : Int) (hn : 0 ≤ n) :
-    (∃ d, s.nthDay n = some d) ↔ (1 ≤ n ∧ n ≤ s.len) :=
-  s.nthDay_some_iff hv n hn
+/-- **the membership test agrees with the actual set of dates in the month** -/
+theorem contains_iff_exists (c : Calendar) (hc : WF c) (y : Int) (m : Month) (dd : Int) (hd : InU32 dd) :
+    (∃ s, c.monthIShape y m = some s ∧ s.contains dd = true)
+      ↔ (∃ j d, c.atJdn? j = some d ∧ d.year = y ∧ d.month = m ∧ d.day = dd) := by
+  obtain ⟨S⟩ := hc.shaped
+  exact (S.month_days y m dd hd.1).symm
+
+/-- **the two-way mapping between day numbers and in-month ordinals, length, first and last
+day all describe the same list**: `nth_day` answers exactly on 1..=len, is strictly
+increasing (so the forward list is ascending, the backward list its reverse, and there are
+exactly `len` days), `day_ordinal` is its inverse, membership is being an `nth_day`, and
+the first / last day are `nth_day 1` / `nth_day len` -/
+theorem shape_algebra (c : Calendar) (hc : WF c) (y : Int) (m : Month) (s : IShape)
+    (hs : c.monthIShape y m = some s) :
+    (∀ n, 0 ≤ n → ((∃ d, s.nthDay n = some d) ↔ (1 ≤ n ∧ n ≤ s.len)))
+    ∧ (∀ k k' d d', 1 ≤ k → k < k' → s.nthDay k = some d → s.nthDay k' = some d' → d < d')
+    ∧ (∀ k d, 1 ≤ k → s.nthDay k = some d → s.dayOrdinal d = some k)
+    ∧ (∀ k d, 0 ≤ d → s.dayOrdinal d = some k → s.nthDay k = some d)
+    ∧ (∀ d, 0 ≤ d → (s.contains d = true ↔ ∃ k, 1 ≤ k ∧ s.nthDay k = some d))
+    ∧ 1 ≤ s.len ∧ s.nthDay 1 = some s.firstDay ∧ s.nthDay s.len = some s.lastDay := by
+  obtain ⟨S⟩ := hc.shaped
+  have hp := S.proper y m s hs
+  have hv := hp.valid
+  refine ⟨fun n hn => s.nthDay_some_iff hv n hn, fun k k' d d' h1 h2 h3 h4 => s.nthDay_strictMono hv k k' d d' h1 h2 h3 h4,
+    ?_, ?_, fun d hd => s.contains_iff hv d hd, hp.len_pos, (s.first_last hp).1, (s.first_last hp).2⟩
+  · intro k d hk h
+    simp only [IShape.dayOrdinal, s.dayOrdinalErr_of_nthDay hv 0 .january k d hk h]
+  · intro k d hd h
+    simp only [IShape.dayOrdinal] at h
+    cases hh : s.dayOrdinalErr 0 .january d with
+    | error e => rw [hh] at h; cases h
+    | ok k' =>
+      rw [hh] at h; injection h with h; subst h
+      exact (s.nthDay_of_dayOrdinalErr hv 0 .january k' d hd hh).1
+
+/-- **the reported gap is exactly the range of naturally existing days that the
+reformation removed** (none for an unaffected month) **and the kind says whether that
+range is at the head, the tail or the middle** -/
+theorem gap_and_kind (c : Calendar) (hc : WF c) (y : Int) (m : Month) (s : IShape)
+    (hs : c.monthIShape y m = some s) :
+    (s.gap = none ↔ s.kind = .normal)
+    ∧ (s.gap = none → ∀ d, 1 ≤ d → d ≤ s.naturalMax → s.contains d = true)
+    ∧ (∀ a b, s.gap = some (a, b) →
+        1 ≤ a ∧ a ≤ b ∧ b ≤ s.naturalMax
+        ∧ (∀ d, 1 ≤ d → d ≤ s.naturalMax → (s.contains d = false ↔ (a ≤ d ∧ d ≤ b)))
+        ∧ (s.kind = .headless ↔ a = 1) ∧ (s.kind = .tailless ↔ b = s.naturalMax)
+        ∧ (s.kind = .gapped ↔ (1 < a ∧ b < s.naturalMax))) := by
+  obtain ⟨S⟩ := hc.shaped
+  exact s.gap_kind (S.proper y m s hs)
+
+/-- the natural span (against which "removed" is measured) is the month table under the rule
+in force at the end of the month -/
+theorem natural_span (R : Int) (hR : InI32 R) (c : Calendar) (hc : Calendar.mkReforming R = .ok c)
+    (y : Int) (m : Month) (s : IShape) (hs : c.monthIShape y m = some s) :
+    ∃ rf : Reform, c = rf.cal ∧ s.naturalMax = monthLen (rf.natLp y m) m := by
+  obtain ⟨rf, rfl, _, _⟩ := mk_reform R hR c hc
+  exact ⟨rf, rfl, (rf.shape_proper y m s hs).2⟩
+
+/-- `nth_date` is the canonical date with that in-month ordinal, or nothing when the day
+number does not fit in 32 bits — never a panic -/
+theorem nthDate_spec (c : Calendar) (hc : WF c) (y : Int) (hy : InI32 y) (m : Month) (s : IShape)
+    (hs : c.monthIShape y m = some s) (n : Int) (hn : InU32 n) (d : Date)
+    (h : (MonthShape.mk c y m s).nthDate n = some d) :
+    c.atJdn? d.jdn = some d ∧ d.year = y ∧ d.month = m ∧ s.nthDay n = some d.day := by
+  obtain ⟨A⟩ := hc.accepting
+  simp only [MonthShape.nthDate, MonthShape.nthDay] at h
+  cases hn' : s.nthDay n with
+  | none => rw [hn'] at h; cases h
+  | some day =>
+    rw [hn'] at h; simp only at h
+    cases hy' : c.atYmd y m day with
+    | error e => rw [hy'] at h; cases h
+    | ok d' =>
+      rw [hy'] at h; injection h with h; subst h
+      have hv := A.valid y m (Calendar.mem_all m) s hs
+      have hk := (s.nthDay_some_iff hv n hn.1).mp ⟨day, hn'⟩
+      have hday : 0 ≤ day := by
+        cases s <;> simp only [IShape.nthDay, IShape.Valid] at hn' hv <;>
+          (repeat' split at hn') <;> (try cases hn') <;> omega
+      obtain ⟨h1, _, h3, h4, h5⟩ := A.atYmd_canon y hy m day hday d' hy'
+      exact ⟨h1, h3, h4, by rw [h5]⟩
+
+/-- the examples that used to be wrong (defect D3): February 301 in the calendar reforming
+on day 1831058 is an ordinary 28-day month with no gap -/
+example : ∃ c, Calendar.mkReforming 1831058 = .ok c
+    ∧ c.monthIShape 301 .february = some (.normal 28) := ⟨_, rfl, rfl⟩
 
 end JV.C09
